@@ -69,6 +69,28 @@ Theorem C19_gather_sum_value : forall s rest r,
 Proof. exact gather_sum_value. Qed.
 Print Assumptions C19_gather_sum_value.
 
+(* end to end, sliced tree without sliced output index: if every slice's stripped run (with the
+   zero check, i.e. no zero factor) ends normally, the plain slice contractions end normally and
+   the gathered (mantissa, exponent) denotes their sum *)
+Theorem C19_sliced_sum_value : forall g g' prog slices ms r,
+  guard_ok g -> Forall homog_instr prog ->
+  Forall2 (fun arrs me => wf_prog R prog (seq 0 (length arrs)) = true /\
+                          R_core g true true prog arrs = Done (fst me) (Some (snd me))) slices ms ->
+  R_gather_sum (map (fun me => Strip (MArr (fst me)) (snd me)) ms) = Some r ->
+  exists ps, Forall2 (fun arrs p => R_core g' false false prog arrs = Done p None) slices ps /\
+             match ps with
+             | [] => False
+             | p :: rest => R_value r = fold_left R_madd (map (fun x => MArr x) rest) (MArr p)
+             end.
+Proof. exact sliced_sum_value. Qed.
+Print Assumptions C19_sliced_sum_value.
+
+(* interface._wrap_strip_exponent_final (single-tensor expressions): (fn(x), 0.0) denotes fn(x) *)
+Theorem C19_single_term_value : forall u x,
+  R_value (single_term_stripped R R 0 u x) = MArr (u x).
+Proof. exact single_term_value. Qed.
+Print Assumptions C19_single_term_value.
+
 (* gather_slices with sliced output indices: summing slices into chunks commutes with
    taking values, and after the common-exponent rescaling every chunk times 10^emax is
    the chunk's value; emax is the largest exponent so no rescaling factor exceeds 1 *)
